@@ -153,9 +153,23 @@ func rawKey(b []byte) string { return fmt.Sprintf("raw:%x", b) }
 // DocAbs is the model's view of a DID document.
 type DocAbs struct {
 	ID   string
-	Keys []string // canonical recipient keys
-	EP   string
+	Keys []string // canonical recipient keys of the destination service.CreateDestination computes (none if it fails)
+	EP   string   // its endpoint
 	H    string
+	// what the model computes the destination from: the service blocks in document order, the key agreement ids
+	Svcs []SvcAbs
+	KA   []string
+	Dest bool   // CreateDestination succeeded
+	Odd  string // the document has a feature the model's document grammar cannot say
+}
+
+// SvcAbs is one service block: type class (TV2 / TV1 / TIndy / TOther), canonical recipient keys, whether one of them is
+// not written as a DID, endpoint URI ("" if there is no usable one).
+type SvcAbs struct {
+	Type  string
+	Keys  []string
+	Plain bool
+	EP    string
 }
 
 func absDoc(doc *did.Doc) *DocAbs {
@@ -167,10 +181,58 @@ func absDoc(doc *did.Doc) *DocAbs {
 
 	if dest, err := service.CreateDestination(doc); err == nil {
 		d.EP, _ = dest.ServiceEndpoint.URI()
+		d.Dest = true
 
 		for _, k := range dest.RecipientKeys {
 			d.Keys = append(d.Keys, canonKey(k))
 		}
+	}
+
+	for i := range doc.Service {
+		sv := &doc.Service[i]
+		sa := SvcAbs{Type: "TOther"}
+
+		switch t := sv.Type.(type) {
+		case string:
+			switch t {
+			case "DIDCommMessaging":
+				sa.Type = "TV2"
+			case "did-communication":
+				sa.Type = "TV1"
+			case "IndyAgent":
+				sa.Type = "TIndy"
+			}
+		default:
+			d.Odd = "service type that is not a string"
+		}
+
+		for _, k := range sv.RecipientKeys {
+			sa.Keys = append(sa.Keys, canonKey(k))
+
+			if !strings.HasPrefix(k, "did:") {
+				sa.Plain = true
+			}
+		}
+
+		uri, err := sv.ServiceEndpoint.URI()
+		if err == nil {
+			sa.EP = uri
+
+			if uri == "" && sa.Type == "TV2" {
+				d.Odd = "DIDComm v2 service block with an empty URI"
+			}
+		}
+
+		d.Svcs = append(d.Svcs, sa)
+	}
+
+	for i := range doc.KeyAgreement {
+		id := doc.KeyAgreement[i].VerificationMethod.ID
+		if strings.HasPrefix(id, "#") {
+			id = doc.ID + id
+		}
+
+		d.KA = append(d.KA, canonKey(id))
 	}
 
 	// digest of what the document says: identifier, public key material, endpoint and recipient keys (independent
@@ -247,6 +309,8 @@ type World struct {
 	coq          bool // the case can be expressed for the model
 	coqWhy       string
 	imu          sync.Mutex
+	dests        map[string]string // document term -> what service.CreateDestination answered for it
+	destOrder    []string
 }
 
 func newWorld(cfg Config) (*World, error) {
@@ -320,17 +384,50 @@ func (w *World) agentAt(ep string) *Agent {
 
 // ---- Coq printers ----
 
-func (w *World) cDoc(d *DocAbs) string {
-	if d == nil {
-		return "(Doc 0 [] 0 0)"
-	}
-
-	ks := make([]int, len(d.Keys))
-	for i, k := range d.Keys {
+func (w *World) cKeys(keys []string) string {
+	ks := make([]int, len(keys))
+	for i, k := range keys {
 		ks[i] = w.in.id("k:" + k)
 	}
 
-	return fmt.Sprintf("(Doc %d %s %d %d)", w.did(d.ID), nList(ks), w.ep(d.EP), w.in.id("h:"+d.H))
+	return nList(ks)
+}
+
+// cDoc prints a document for the model and notes what the real CreateDestination made of it (the model's `dest` is
+// compared with that inside Coq).
+func (w *World) cDoc(d *DocAbs) string {
+	if d == nil {
+		return "doc0"
+	}
+
+	if d.Odd != "" {
+		w.noCoq("document outside the model's grammar: " + d.Odd)
+	}
+
+	svcs := make([]string, len(d.Svcs))
+	for i, sv := range d.Svcs {
+		svcs[i] = fmt.Sprintf("Svc %s %s %v %d", sv.Type, w.cKeys(sv.Keys), sv.Plain, w.ep(sv.EP))
+	}
+
+	term := fmt.Sprintf("(Doc %d [%s] %s %d)", w.did(d.ID), strings.Join(svcs, "; "), w.cKeys(d.KA), w.in.id("h:"+d.H))
+
+	w.imu.Lock()
+	if w.dests == nil {
+		w.dests = map[string]string{}
+	}
+
+	if _, ok := w.dests[term]; !ok {
+		obs := "None"
+		if d.Dest {
+			obs = fmt.Sprintf("(Some (%d, %s))", w.ep(d.EP), w.cKeys(d.Keys))
+		}
+
+		w.dests[term] = obs
+		w.destOrder = append(w.destOrder, term)
+	}
+	w.imu.Unlock()
+
+	return term
 }
 
 func (w *World) cODoc(d *DocAbs) string {
